@@ -14,7 +14,12 @@ RULE = ("call lists derived from abstract documents (props/docgen.py) with every
         "whole domain Scalar::to_f64 reads back (zero, -0, 1e-5 <= |x| < 2^53; f32 from 1e-13), write_f32/f64_precision (0..12 places), "
         "non-finite and huge/tiny values (structure only); bool / Date / DateHour / UniformDate / iso_8601 / unknown-token read-back; "
         "3..8 write_quoted calls per writer alternating escape / no escape; arbitrary sessions mixing calls, write_tape in any state and "
-        "raw inner() writes; builder defaults")
+        "raw inner() writes; builder defaults. "
+        "Wave 6 (props/C15_sizes.py): size ladders 0 1 2 3 7 8 9 15 16 17 .. 65535 65536, one dimension at a time: nesting depth to 4097 "
+        "(every start flavour), indent width depth x factor to 65537 with the exact expected bytes, siblings to 65536 (131072 calls in one "
+        "history), payload length of every scalar call to 65536, first-escape position x tail x last byte of escape(), 1..1025 quoted "
+        "writes on one writer, every digit count of the four integer types, float magnitude 1e-324..1e308 and precision 0..65535, token "
+        "ids, rgb components, date years, every call repeated 300 times, ill-formed histories to 65536 calls, sessions of 300 segments")
 TRUSTED = ["float Display (core::fmt) is an oracle: the text the implementation prints is passed to the model in the case; its assumed "
            "contract ([-]digits[.digits] for finite values, reads back within 2 ulp) is checked on every sampled value",
            "integer printing (itoa / core::fmt) is modelled by Date.fmt_int and exercised by correspondence",
@@ -419,6 +424,11 @@ def run(ctx, widen=False):
         from props import C15_extra
         C15_extra.run(ctx, _fail)
     # <<< a_wr
+    # >>> s_wr (wave 6): size / boundary ladders, one dimension at a time (audit/C15.md "Size dimensions")
+    if not widen:
+        from props import C15_sizes
+        C15_sizes.run(ctx, _fail)
+    # <<< s_wr
 
 
 def search(ctx):
